@@ -32,7 +32,15 @@ from translate import tx_layout
 
 warnings.filterwarnings('ignore')
 
-TABLE_ANGLES = {0, 90, 180, -180, -90}
+TABLE_ANGLES = {0, 90, 180, -180, -90}      # keys of Cpt.R's Rdict; replaced in run() by what the translator reads from the source
+TABLE_NORMALISE = False                      # whether Cpt.R normalises the angle before the lookup
+
+
+def in_table(angle):
+    if TABLE_NORMALISE:
+        angle = (angle + 180) % 360 - 180
+    return angle in TABLE_ANGLES
+
 DIRS = {'right': (1, 0, 0), 'up': (0, 1, 90), 'left': (-1, 0, 180), 'down': (0, -1, -90)}
 ONEPORTS = ['R', 'C', 'L', 'V', 'I', 'D', 'W', 'O', 'P', 'W', 'W', 'R']
 
@@ -201,7 +209,7 @@ def hint_for(rng, direction, size, cpt, allow_outside):
     rot = ang - base
     cands = [rot, rot + 360, rot - 360]
     if not allow_outside:
-        cands = [r for r in cands if (base + r) in TABLE_ANGLES]
+        cands = [r for r in cands if (base + r) in {0, 90, 180, -180, -90}]
         if not cands:
             return '%s=%s' % (direction, s), ang
     r = rng.choice(cands)
@@ -277,7 +285,7 @@ def gen_grid(rng, allow_outside=False, fixed_p=0.15, offset_p=0.0):
             if smaller:
                 size = rng.choice(smaller)
         h, ang = hint_for(rng, direction, size, cpt, allow_outside)
-        if ang not in TABLE_ANGLES:
+        if not in_table(ang):
             feats['outside'] = True
         if fixed:
             h += ', fixed'
@@ -433,12 +441,12 @@ def features_of(lines):
         tot = base + (int(m.group(1)) if m else 0)
         if l.split()[0][0] == 'P' and base == 0 and not re.search(r'\bright\b', o):
             tot -= 90
-        if tot not in TABLE_ANGLES:
+        if not in_table(tot):
             f['outside'] = True
         mo = re.search(r'offset=(-?[\d.]+)', o)
         if mo and float(mo.group(1)) != 0:
             # Schematic._cpt_add gives the two generated wires rotate = angle +- 90
-            if tot + (90 if float(mo.group(1)) > 0 else -90) not in TABLE_ANGLES:
+            if not in_table(tot + (90 if float(mo.group(1)) > 0 else -90)):
                 f['outside'] = True
         if l.split()[0][0] in 'UE' or l.startswith('TF'):
             f['multi_pin'] = True
@@ -455,7 +463,11 @@ def run(chk, replay=None):
         if not os.path.exists(gen_path) or open(gen_path).read() != text:
             with open(gen_path, 'w') as f:
                 f.write(text)
-    chk.coverage['translator'] = {'status': 'ok', 'classes': len(info['classes']), 'unparsed': info['unparsed']}
+    chk.coverage['translator'] = {'status': 'ok', 'classes': len(info['classes']), 'unparsed': info['unparsed'],
+                                  'rotation_table_keys': info['rot_keys'], 'rotation_normalised': info['rot_normalise']}
+    global TABLE_ANGLES, TABLE_NORMALISE
+    TABLE_ANGLES = set(info['rot_keys'])
+    TABLE_NORMALISE = bool(info['rot_normalise'])
     # ---- 2. proofs
     broken = chk.lean(['Lcapy/Props/C20.lean'],
                       helper_files=['Lcapy/Proofs/LayoutBase.lean', 'Lcapy/Model/Layout.lean', 'Lcapy/Model/LayoutTypes.lean',
@@ -464,12 +476,6 @@ def run(chk, replay=None):
     drv = chk.get_driver()
     rng = chk.rng
     quick = chk.tier == 'quick'
-    # findings reported to the coordinator but not yet in known-findings.json (same format, same matcher)
-    pend = os.path.join(common.VERIF, 'corpus', 'C20', 'findings.json')
-    if os.path.exists(pend):
-        import json
-        have = {f.get('id') for f in chk.findings}
-        chk.findings += [f for f in json.load(open(pend)).get('findings', []) if f.get('property') == 'C20' and f.get('id') not in have]
     R = Real()
     import lcapy as L
     chk.coverage['trusted_base'].append('float -> rational snapping of Lcapy positions (limit_denominator 1e6, tolerance 1e-9); '
